@@ -17,8 +17,8 @@ import (
 )
 
 var (
-	home = envOr("VERIF_HOME", "/verif")
-	repo = envOr("VERIF_REPO", "/repo")
+	home  = envOr("VERIF_HOME", "/verif")
+	repo  = envOr("VERIF_REPO", "/repo")
 	goBin = envOr("VERIF_GO", "go1.26.8")
 	build = filepath.Join(home, ".build")
 )
@@ -554,20 +554,20 @@ func sortedKeys(m map[string]int) []string {
 // ---- violation handling: minimise, verify replay, write replay file ------------------
 
 type ReplayFile struct {
-	Property      string         `json:"property"`
-	Harness       string         `json:"harness"`
-	Tier          string         `json:"tier"`
-	Seed          uint64         `json:"seed"`
-	Run           int            `json:"run"`
+	Property      string            `json:"property"`
+	Harness       string            `json:"harness"`
+	Tier          string            `json:"tier"`
+	Seed          uint64            `json:"seed"`
+	Run           int               `json:"run"`
 	Params        map[string]string `json:"params,omitempty"`
-	MaxSteps      int            `json:"max_steps,omitempty"`
-	Choices       []int          `json:"choices"`
-	Violation     *Violation     `json:"violation"`
-	Fingerprint   string         `json:"fingerprint"`
-	MinimisedFrom int            `json:"minimised_from_choices"`
-	Faults        map[string]int `json:"faults_fired,omitempty"`
-	Log           []string       `json:"log"`
-	Note          string         `json:"note"`
+	MaxSteps      int               `json:"max_steps,omitempty"`
+	Choices       []int             `json:"choices"`
+	Violation     *Violation        `json:"violation"`
+	Fingerprint   string            `json:"fingerprint"`
+	MinimisedFrom int               `json:"minimised_from_choices"`
+	Faults        map[string]int    `json:"faults_fired,omitempty"`
+	Log           []string          `json:"log"`
+	Note          string            `json:"note"`
 }
 
 func replayOnce(bi *buildInfo, p *Prop, tier string, seed uint64, run int, choices []int, keepLog bool) (*RunResult, error) {
@@ -840,30 +840,30 @@ func writeEvidence(p *Prop, h *Harness, bi *buildInfo, tier string, seed uint64,
 			"select priority is source order and map iteration is sorted in instrumented files (each one legal behaviour)",
 		}, p.Assumptions...),
 		"coverage": map[string]any{
-			"evaluations":         a.runs,
-			"distinct_nontrivial": len(a.nontriv),
-			"rule": "one evaluation = one simulated run of the real code under the seeded scheduler (workload, configuration knobs, fault plan and every scheduling decision drawn from VERIF_SEED and the run index). distinct = distinct vector of recorded choices (workload+faults+schedule); non-trivial = at least one fault fired or at least one scheduling decision had more than one candidate. " + p.Rule,
-			"samples":             samples,
-			"runs_per_hour":       float64(a.runs) / wall * 3600,
-			"run_index_range":     []int{0, a.runs},
-			"simulated_seconds":   a.simSeconds,
-			"steps_total":         a.steps,
-			"contended_decisions": a.contended,
-			"faults_fired":        a.faults,
-			"probes":              a.probes,
-			"distinct_schedules":  len(a.sched),
-			"distinct_end_states": len(a.ends),
-			"strategies":          a.strat,
-			"truncated_runs":      a.truncated,
+			"evaluations":                    a.runs,
+			"distinct_nontrivial":            len(a.nontriv),
+			"rule":                           "one evaluation = one simulated run of the real code under the seeded scheduler (workload, configuration knobs, fault plan and every scheduling decision drawn from VERIF_SEED and the run index). distinct = distinct vector of recorded choices (workload+faults+schedule); non-trivial = at least one fault fired or at least one scheduling decision had more than one candidate. " + p.Rule,
+			"samples":                        samples,
+			"runs_per_hour":                  float64(a.runs) / wall * 3600,
+			"run_index_range":                []int{0, a.runs},
+			"simulated_seconds":              a.simSeconds,
+			"steps_total":                    a.steps,
+			"contended_decisions":            a.contended,
+			"faults_fired":                   a.faults,
+			"probes":                         a.probes,
+			"distinct_schedules":             len(a.sched),
+			"distinct_end_states":            len(a.ends),
+			"strategies":                     a.strat,
+			"truncated_runs":                 a.truncated,
 			"runs_with_abandoned_goroutines": a.leaked,
-			"components":          map[string]any{"real": p.Real, "stub": p.Stub},
-			"rewriter":            bi.Rewriter,
-			"toolchain":           "go1.26.8 testing/synctest",
-			"pure_ride_along":     p.PureRideAlong,
-			"coverage_warnings":   warnings,
-			"known_findings_seen": knownSeen,
-			"build_s":             bi.BuildS,
-			"replay":              replay,
+			"components":                     map[string]any{"real": p.Real, "stub": p.Stub},
+			"rewriter":                       bi.Rewriter,
+			"toolchain":                      "go1.26.8 testing/synctest",
+			"pure_ride_along":                p.PureRideAlong,
+			"coverage_warnings":              warnings,
+			"known_findings_seen":            knownSeen,
+			"build_s":                        bi.BuildS,
+			"replay":                         replay,
 		},
 	}
 	b, _ := json.MarshalIndent(ev, "", " ")
